@@ -424,6 +424,15 @@ func Discharge(obls []*Obligation, timeoutS int, confirm bool, workers int) {
 					continue
 				}
 				ob.Result = Solve(ob.Query, t, confirm)
+				if ob.Result.Status != "unsat" && ob.Result.Status != "sat" && ob.Timeout == 0 && t <= 20 {
+					// no answer within the quick budget: before an obligation that
+					// discharges on the unchanged tree is reported as failed, give it
+					// one more run with three times the budget (a loaded machine must
+					// not turn into a false alarm)
+					r2 := Solve(ob.Query, 3*t, confirm)
+					r2.Secs += ob.Result.Secs
+					ob.Result = r2
+				}
 				if ob.Result.Status != "unsat" {
 					mu.Lock()
 					failedNames[ob.Name] = true
